@@ -130,6 +130,11 @@ def run_case(ri):
             base_ = nd.Derivative(fun, n=r['n'], method=r['m'], order=r['o'], full_output=True)(xx)
             if not np.array_equal(np.asarray(a1[0]), 4.0 * np.asarray(base_[0]), equal_nan=True):
                 probs.append('args: with s=2.0 and the keyword t=1.0 (f multiplied by exactly 4) the result is %r, 4 * the result for f = %r' % (np.ravel(a1[0])[:3].tolist(), (4.0 * np.ravel(base_[0]))[:3].tolist()))
+            # the same through *args / **kwargs of f (a generic wrapper): nothing is filtered against f's signature
+            gk = lambda z, *coef, **options: fun(z) * coef[0] * (1.0 + options.get('t', 0.0))
+            k1 = nd.Derivative(gk, n=r['n'], method=r['m'], order=r['o'], full_output=True)(xx, 2.0, t=1.0)
+            if not np.array_equal(np.asarray(k1[0]), 4.0 * np.asarray(base_[0]), equal_nan=True):
+                probs.append('args: f(z, *coef, **options) called with coef = (2.0,), t=1.0 gives %r, 4 * the result for f = %r' % (np.ravel(k1[0])[:3].tolist(), (4.0 * np.ravel(base_[0]))[:3].tolist()))
             a2 = dd(xx, -0.5)
             if not np.array_equal(np.asarray(a1[0]), keep1, equal_nan=True):
                 probs.append('args: the array returned by the first call was changed by the second call of the same object')
